@@ -391,9 +391,9 @@ type e3Node struct {
 	newPanicked   bool
 
 	// progress bookkeeping (router goroutine and driver goroutine; under run.mu)
-	lastFinH     uint64
+	lastFinH       uint64
 	finHeldAtStart map[int]map[uint64]bool // incarnation -> heights in the finalization store at its start
-	lastProgress int // router step of the last finalization by this node
+	lastProgress   int                     // router step of the last finalization by this node
 }
 
 func newE3Node(run *e3Run, idx int) *e3Node {
